@@ -24,7 +24,7 @@ for d in sorted(glob.glob(os.path.join(ROOT, "seeded", "C*"))):
     seeds.setdefault(m["property"], []).append((os.path.basename(d), m))
 
 FILES = {
- "C01": "Models/Recover.v (on Tbls.v, Stages.v), Proofs/RecoverProofs.v; harness props/c01.go",
+ "C01": "Models/Recover.v (on Tbls.v, Stages.v), Proofs/RecoverProofs.v, NodeCompose.v (with Models/QueryLoop.v); harness props/c01.go",
  "C02": "Models/Tbls.v, EntryTbls.v, Proofs/TblsProofs.v (on ShareProofs, Lagrange); harness props/c02.go",
  "C03": "Models/Tbls.v, Proofs/TblsProofs.v; harness props/c02.go",
  "C04": "Models/Vss.v, Dkg.v, EntryVss.v, Proofs/VssProofs.v, DkgProofs.v, DkgLive.v; harness props/c05.go (library level), props/c04net.go (n real pdkg over the network double)",
